@@ -456,6 +456,16 @@ func (s Segment) Remove() error {
 	return nil
 }
 
+// Sync forces the files of the segment to disk, for a handle that does not write them itself
+func (s Segment) Sync() error {
+	for _, path := range []string{s.Log, s.Index} {
+		if err := kdir.Sync(path); err != nil && !errors.Is(err, os.ErrNotExist) {
+			return fmt.Errorf("sync %s: %w", path, err)
+		}
+	}
+	return nil
+}
+
 func (s Segment) syncDir() error {
 	if !s.AutoSync {
 		return nil
